@@ -100,6 +100,87 @@ Fixpoint lrun (have : bool) (ops : list lop) : list decision :=
   | o :: r => let '(d, h) := lstep have o in d :: lrun h r
   end.
 
+(** ** The same table with the places where local data can live.
+
+    [CreateDBOptions.Directory] can be left unset, name the instance's own directory, or name
+    another one; the instance itself keeps its data on disk or in memory
+    ([NewOrbitDBOptions.Directory] nil or ":memory:").  What the code does (orbitdb.go):
+    - [Create] looks for the marker, and records it, in the cache of the INSTANCE directory
+      whatever the option says ([loadCache(o.directory, ...)], [addManifestToCache(ctx, o.directory, ...)]);
+      [createStore] takes the store's cache from the instance directory too;
+    - [Open] looks for the marker in the cache of the option's directory when one is given
+      ([directory = *options.Directory]).  Nothing ever records a marker there.  With
+      [falls_back] (true = the code as it stands, [c14_open_falls_back_current]; false = before
+      that repair) a local-only Open that does not find the marker there also looks where Create
+      records it;
+    - the cache of an instance in memory is an in-memory leveldb that is discarded when a store
+      holding it is closed ([wrappedCache.Close]): the marker goes with it.  On disk closing
+      changes nothing. *)
+Inductive dopt := DUnset | DInst | DOther (k : N).
+
+(** does the option designate the instance's own directory? *)
+Definition dopt_is_instance (d : dopt) : bool :=
+  match d with DOther _ => false | _ => true end.
+
+Inductive dop :=
+| DCreate (overwrite : bool) (d : dopt)
+| DOpen (local_only : bool) (d : dopt)
+| DCloseAll.   (* every handle of the database held so far is closed *)
+
+(** the marker as Open sees it; [have] = the marker is in the cache of the instance directory *)
+Definition open_sees (falls_back have : bool) (d : dopt) : bool :=
+  if dopt_is_instance d then have else falls_back && have.
+
+Definition dstep (falls_back memory have : bool) (o : dop) : decision * bool :=
+  match o with
+  | DCreate ow _ =>
+    match create_decision have ow with
+    | Refused => (Refused, have)
+    | Proceeds => (Proceeds, true)
+    end
+  | DOpen lo d => (open_decision (open_sees falls_back have d) lo, have)
+  | DCloseAll => (Proceeds, have && negb memory)
+  end.
+
+Fixpoint drun (falls_back memory have : bool) (ops : list dop) : list decision :=
+  match ops with
+  | [] => []
+  | o :: r => let '(d, h) := dstep falls_back memory have o in d :: drun falls_back memory h r
+  end.
+
+(** forgetting the directories / the plain table as a special case *)
+Definition undir (o : dop) : dop :=
+  match o with
+  | DCreate ow _ => DCreate ow DUnset
+  | DOpen lo _ => DOpen lo DUnset
+  | DCloseAll => DCloseAll
+  end.
+Definition dop_of_lop (o : lop) : dop :=
+  match o with LCreate ow => DCreate ow DUnset | LOpen lo => DOpen lo DUnset end.
+
+(** The property, on the outcomes observed for one instance and one address it did not know
+    before (0 = proceeded, 1 = refused by the local-presence rule, 2 = any other error),
+    WHATEVER the Directory options were: a create is refused by the presence rule exactly when
+    this instance created the database before (and, in memory, has not closed it since) and
+    overwrite is off; a local-only open is refused when the instance has nothing of the
+    database, and not refused when it created it; closing succeeds.
+    [have] = created here, [seen] = some operation succeeded here. *)
+Fixpoint dlocal_ok (memory have seen : bool) (ops : list dop) (obs : list N) : bool :=
+  match ops, obs with
+  | [], [] => true
+  | DCreate ow _ :: r, o :: q =>
+    (if have && negb ow then o =? 1 else negb (o =? 1)) &&
+    dlocal_ok memory (have || (o =? 0)) (seen || (o =? 0)) r q
+  | DOpen lo _ :: r, o :: q =>
+    (if lo && negb seen then o =? 1 else if have || negb lo then negb (o =? 1) else true) &&
+    dlocal_ok memory have (seen || (o =? 0)) r q
+  | DCloseAll :: r, o :: q =>
+    (o =? 0) && dlocal_ok memory (have && negb memory) (seen && negb memory) r q
+  | _, _ => false
+  end.
+
+Definition decision_code (d : decision) : N := match d with Proceeds => 0 | Refused => 1 end.
+
 Section Address.
   (** address.go IsValid (hence Parse) refuses an address one of whose parts after the root
       is "..": true = the code as it stands (fix: commit ad3ae9b), false = the pinned commit.
